@@ -37,6 +37,9 @@ import (
 // Options tunes NewChain.
 type Options struct {
 	P2PSig bool // enable P2PSigExtensions (Notary native contract)
+	// Validators is the number of consensus nodes (0 = the whole committee); the first keys of the
+	// (sorted) committee are the standby validators.
+	Validators int
 }
 
 // Chain is an in-memory blockchain with an n-key committee (= validators =
@@ -132,13 +135,17 @@ func NewChain(t testing.TB, n int, opts Options) *Chain {
 		pubs[i] = priv[i].PublicKey()
 		sc[i] = hex.EncodeToString(pubs[i].Bytes())
 	}
+	nv := n
+	if opts.Validators > 0 && opts.Validators < n {
+		nv = opts.Validators
+	}
 	cfg := config.Blockchain{
 		ProtocolConfiguration: config.ProtocolConfiguration{
 			Magic:                           netmode.UnitTestNet,
 			MaxTraceableBlocks:              1000000,
 			TimePerBlock:                    time.Second,
 			StandbyCommittee:                sc,
-			ValidatorsCount:                 uint32(n),
+			ValidatorsCount:                 uint32(nv),
 			VerifyTransactions:              true,
 			P2PSigExtensions:                opts.P2PSig,
 			P2PNotaryRequestPayloadPoolSize: 1000,
@@ -150,7 +157,7 @@ func NewChain(t testing.TB, n int, opts Options) *Chain {
 	}
 	go bc.Run()
 	c := &Chain{T: tb, BC: bc, N: n, Priv: priv, Pubs: pubs}
-	c.Validators = multisig(smartcontract.GetDefaultHonestNodeCount(n), priv, pubs)
+	c.Validators = multisig(smartcontract.GetDefaultHonestNodeCount(nv), priv[:nv], pubs[:nv])
 	c.Alphabet = multisig(AlphabetThreshold(n), priv, pubs)
 	c.Committee = multisig(MajorityThreshold(n), priv, pubs)
 	c.Payer = neotest.NewSingleSigner(DetAccount("payer"))
